@@ -11,13 +11,40 @@ From Coq Require Import Uint63.
     63-bit integer, little endian ([pk 9 [0x07060504030201; 0x0908]] =
     [1;2;3;4;5;6;7;8;9]): the kernel checks one node per seven bytes instead of
     a numeral per byte *)
-Fixpoint unpk (k : nat) (z : Z) : list Z :=
-  match k with O => [] | S k' => (z mod 256) :: unpk k' (z / 256) end.
+(** (the bytes are taken off the word with primitive shifts and masks; only the
+    resulting 8-bit values are converted to [Z]) *)
+Fixpoint byteZ (n : nat) (i : int) : Z :=
+  match n with
+  | O => 0
+  | S n' => if is_even i then Z.double (byteZ n' (i >> 1)%uint63) else Z.succ_double (byteZ n' (i >> 1)%uint63)
+  end.
+Fixpoint unpk (k : nat) (w : int) : list Z :=
+  match k with O => [] | S k' => byteZ 8 (w land 255)%uint63 :: unpk k' (w >> 8)%uint63 end.
 Fixpoint pk (n : Z) (ws : list int) : list Z :=
   match ws with
   | [] => []
-  | w :: t => if n <=? 7 then unpk (Z.to_nat n) (to_Z w) else unpk 7 (to_Z w) ++ pk (n - 7) t
+  | w :: t => if n <=? 7 then unpk (Z.to_nat n) w else unpk 7 w ++ pk (n - 7) t
   end.
+Example pk_example : pk 9 [1976943448883713%uint63; 2312%uint63] = [1; 2; 3; 4; 5; 6; 7; 8; 9].
+Proof. vm_compute. reflexivity. Qed.
+
+(** long summaries are written as [unz (pk n [...])]: per value one tag byte
+    (number of magnitude bytes, +128 when the value is negative) followed by
+    the magnitude, little endian *)
+Fixpoint unz_go (fuel : nat) (l : list Z) : list Z :=
+  match fuel with
+  | O => []
+  | S f =>
+      match l with
+      | [] => []
+      | t :: r =>
+          match takeZ r (t mod 16) with
+          | Some (a, r') => (if 128 <=? t then - le_val a else le_val a) :: unz_go f r'
+          | None => [-999]   (* malformed: never written by the harness, never equal to a model summary *)
+          end
+      end
+  end.
+Definition unz (l : list Z) : list Z := unz_go (length l) l.
 
 (** what the implementation did *)
 Inductive dobs : Type :=
